@@ -85,3 +85,10 @@ RPKI_RULE = ("two simulated RTR caches (own RFC 6810 encoder) reached through th
 PROP_INFO["C16"] = {"level": "exploration", "rule": RPKI_RULE, "probes": ["rtr_end_of_data"], "budget": {"quick": 60, "thorough": 1200}}
 SUITES["C16"] = {"quick": [{"family": "rpki", "mode": "", "share": 1}], "thorough": [{"family": "rpki", "mode": "", "share": 3}, {"family": "rpki", "mode": "corrupt", "share": 1}]}
 ALL_FAMILIES += [("rpki", ""), ("rpki", "corrupt")]
+VPN_RULE = ("two PE neighbours (route-reflector clients, VPNv4, RT-Constrain negotiated on a per-run basis) and one or two CE neighbours attached to VRFs red/blue; VRFs green/grey with overlapping "
+            "import/export targets added and deleted through the API and originating routes; PE VPNv4 announcements with drawn target sets, withdrawals, CE announcements, RT membership "
+            "announce / withdraw / default membership, session flaps. Oracle at probes (set algebra over the script's history): each CE view, each PE view (filtered by its memberships when "
+            "RT-Constrain is negotiated), exported route targets, and ListPath(vrf). NON-TRIVIAL: a probe compared a non-empty VPN route set; DISTINCT by (schedule signature, event-log hash).")
+PROP_INFO["C17"] = {"level": "exploration", "rule": VPN_RULE, "probes": ["vpn_announce", "ce_announce", "vrf_originate"], "budget": {"quick": 60, "thorough": 1200}}
+SUITES["C17"] = {"quick": [{"family": "vpn", "mode": "", "share": 1}], "thorough": [{"family": "vpn", "mode": "", "share": 1}]}
+ALL_FAMILIES += [("vpn", "")]
